@@ -67,10 +67,17 @@ class World(object):
         self.p_null, self.p_nn, self.p_error, self.p_crash = p_null, p_null_in_nonnull, p_error, p_crash
         self._served = {}
         r = random.Random("served:%s" % seed)
+        # applications tend to serve all their types the same way (one ORM class, plain dicts):
+        # a fifth of the worlds are all-object, a tenth all-dict, the rest mixed per type
+        style = r.random()
         for t in schema.types.values():
             if t.kind == "object":
-                self._served[t.name] = (served or {}).get(t.name) or r.choice(
-                    ["resolver", "resolver", "resolver", "dict", "object"])
+                mode = r.choice(["resolver", "resolver", "resolver", "dict", "object"])
+                if style < 0.2:
+                    mode = "object"
+                elif style < 0.3:
+                    mode = "dict"
+                self._served[t.name] = (served or {}).get(t.name) or mode
         self._abstract = {}
         for t in schema.types.values():
             if t.kind in ("interface", "union"):
